@@ -547,6 +547,52 @@ func init() {
 			}
 			c.Programs += 32
 		}
+		// the file extension enters the root type's name when no root type is given: the JSON and the YAML spelling of
+		// one schema, saved under names that differ only in the (resolve) extension — one dot or several — must give
+		// the same bytes, as the input file and as a file reached through an extension-less reference
+		for ei, exts := range [][2]string{{".json", ".yaml"}, {".schema.json", ".schema.yaml"}, {".v1.json", ".v1.yml"}, {".json", ".schema.yaml"}} {
+			for si, stem := range []string{"thing", "my-item", "geo.point", "a.b.c"} {
+				g := sgen.New(c.R, relOpts())
+				root := g.Root("urn:c13:x")
+				delete(root, "title")
+				cfg := core.DefaultCfg()
+				cfg.Tags = []string{"json"}
+				cfg.ResolveExtensions = []string{exts[0], exts[1]}
+				dir := filepath.Join(tmp, fmt.Sprintf("extname-%d-%d", ei, si))
+				a := genSrc(filepath.Join(dir, "j"), stem+exts[0], core.MustJSON(root), cfg, "")
+				b := genSrc(filepath.Join(dir, "y"), stem+exts[1], toYAML(root, false), cfg, "")
+				c.Eval(fmt.Sprintf("extension-in-name|%v|%s|%v", exts, stem, a == b))
+				if a != b && !strings.HasPrefix(a, "ERR") {
+					fails++
+					if fails <= 3 {
+						c.Fail("oracle", fmt.Sprintf("the same schema saved as %s (JSON) and as %s (YAML) with resolve extensions %v generates different code", stem+exts[0], stem+exts[1], exts),
+							M{"kind": "relational", "cfg": cfg, "canonical": string(core.MustJSON(root)), "file_a": stem + exts[0], "file_b": stem + exts[1], "canonical_output": clip(a, 2000), "respelled_output": clip(b, 2000)}, false)
+					}
+				}
+				// … and as the target of an extension-less reference from an unchanged main file
+				mainSchema := core.MustJSON(sgen.M{"$id": "urn:c13:main", "type": "object", "properties": sgen.M{"item": sgen.M{"$ref": "./" + stem}}})
+				for k, sub := range []string{"rj", "ry"} {
+					d := filepath.Join(dir, sub)
+					_ = os.MkdirAll(d, 0o755)
+					if k == 0 {
+						_ = os.WriteFile(filepath.Join(d, stem+exts[0]), core.MustJSON(root), 0o644)
+					} else {
+						_ = os.WriteFile(filepath.Join(d, stem+exts[1]), toYAML(root, false), 0o644)
+					}
+				}
+				ra := genSrc(filepath.Join(dir, "rj"), "main.json", mainSchema, cfg, "")
+				rb := genSrc(filepath.Join(dir, "ry"), "main.json", mainSchema, cfg, "")
+				c.Eval(fmt.Sprintf("extension-in-referenced-name|%v|%s|%v", exts, stem, ra == rb))
+				if ra != rb && !strings.HasPrefix(ra, "ERR") {
+					fails++
+					if fails <= 3 {
+						c.Fail("oracle", fmt.Sprintf("a file referenced as ./%s, saved as %s (JSON) or as %s (YAML) with resolve extensions %v: the generated code differs", stem, stem+exts[0], stem+exts[1], exts),
+							M{"kind": "relational", "cfg": cfg, "canonical": string(core.MustJSON(root)), "main": string(mainSchema), "canonical_output": clip(ra, 2000), "respelled_output": clip(rb, 2000)}, false)
+					}
+				}
+				c.Programs += 4
+			}
+		}
 	})
 
 	// ------------------------------------------------------------------ C16
@@ -619,11 +665,36 @@ func init() {
 				report("--tags", "the outputs differ in more than struct tags", full, tgOut, tg)
 			}
 			// naming options
-			for _, nm := range []string{"capitalization", "title", "root-type"} {
+			for _, nm := range []string{"capitalization", "capitalization-lower-first", "title", "root-type"} {
 				nc := base
 				switch nm {
 				case "capitalization":
 					nc.Caps = core.Pick(c.R, [][]string{{"ID"}, {"URL", "ID"}, {"FOO", "Bar"}})
+				case "capitalization-lower-first":
+					// an entry that starts with a lower-case letter and equals (up to case) the FIRST word of a property
+					// name (iOS, eBay, gRPC): the entry is used verbatim, so the field name starts lower-case
+					cap := ""
+					if props, ok := root["properties"].(sgen.M); ok {
+						for _, pn := range core.SortedKeys(props) {
+							w := ""
+							for _, r := range pn {
+								if (r >= 'a' && r <= 'z') || (r >= 'A' && r <= 'Z') {
+									w += string(r)
+								} else {
+									break
+								}
+							}
+							// (names the comparison cannot abstract — library identifiers such as Name, Value — are left out)
+							if len(w) >= 2 && !goKeywords[strings.ToUpper(w[:1])+w[1:]] && !goKeywords[w] {
+								cap = strings.ToLower(w[:1]) + strings.ToUpper(w[1:])
+								break
+							}
+						}
+					}
+					if cap == "" {
+						continue
+					}
+					nc.Caps = []string{cap}
 				case "title":
 					nc.StructNameFromTitle = true
 					// a title whose identifier equals a definition's: the root then competes with that definition for
